@@ -30,6 +30,7 @@ EXPLANATION = ("a: forward dataflow of the number of frames an activation has op
                "if the key is absent; rollback pops one frame and replays it reversed restoring both maps; commit must hand the "
                "popped entries to the parent frame when there is one.")
 FLOORS = {"functions_opening_frames": 1, "begin_sites": 2, "mutators_reachable": 2}
+EXPLANATION += ' d (added): during commit the enclosing frame is only appended to (push/extend/append, or insert under a key-absent guard); retain/remove/truncate/insert-at-front on it lose the value its keys had when it began.'
 
 F = "engine::facts::Facts"
 BEGIN, COMMIT, ROLLBACK = F + "::begin_undo_frame", F + "::commit_undo_frame", F + "::rollback_undo_frame"
